@@ -39,7 +39,7 @@ theorem clone_via (it : Iter) (h : Inv it) (hw : it.slots.length < word) : clone
   obtain ⟨ho, _⟩ := hb2 (abs it) hspec
   rw [hspec] at hb1
   have hr : (call it Gen.Body.clone []).2.1 = R.ret .obj := (Prod.ext_iff.mp hb1).2
-  have ho' : (call it Gen.Body.clone []).2.2.out = ⟨setMany it.slots 0 (abs it), 0, (abs it).length, 0⟩ := ho
+  have ho' : (call it Gen.Body.clone []).2.2.out = ⟨setMany it.slots 0 (abs it), 0, (abs it).length, 0, []⟩ := ho
   simp only [cloneVia, hr, ho']
   unfold Iter.clone
   rw [asSlice_eq, setMany_eq (abs it) it.slots 0 (by omega)]
@@ -208,7 +208,7 @@ theorem C06_body_into_iter (l : List Nat) (hw : l.length < word) (ops : List IOp
   constructor
   · have := intoIter_body l (vctx l.length l) rfl
     have e1 : (runFn (vctx l.length l) Gen.Body.dropIter.body Gen.Body.intoIter []
-        { self := ⟨l, 0, 0, 0⟩, out := ⟨[], 0, 0, 0⟩, hasOut := false, calls := 0, forgot := false }).2.1 = R.ret .obj :=
+        { self := ⟨l, 0, 0, 0, []⟩, out := ⟨[], 0, 0, 0, []⟩, hasOut := false, calls := 0, forgot := false, polls := 0, outForgot := false }).2.1 = R.ret .obj :=
       congrArg (fun t => t.2.1) this
     have e2 := congrArg (fun t => t.2.2) this
     simp only [GA.BodyIter.intoIter, GA.BodyIter.D, e1]
@@ -443,13 +443,13 @@ example : (GA.BodyIter.run (Iter.ofList [10, 11, 12, 13, 14]) [.nth 1, .nextBack
 /-- `nth(2)` with the destructor of element 0 panicking: the translated body drops 0 and 1 once and
     leaves the iterator at index 2, so its `Drop` releases 2, 3, 4 only (the repaired defect F1) -/
 example :
-    let c : Ctx := ⟨5, some 0, fun _ => false, fun _ => none⟩
+    let c : Ctx := ⟨5, some 0, fun _ => false, fun _ => none, fun _ => .done, (0, none)⟩
     let r := runFn c Gen.Body.dropIter.body Gen.Body.nth [.nat 2] (ofIter ⟨[0, 1, 2, 3, 4], 0, 5⟩)
     (drops r.1, r.2.1, r.2.2.self.index) = ([0, 1], R.panicked, 2) := by decide
 /-- `clone()` with `T::clone` panicking on its third call: the two clones made are dropped (the
     repaired defect F2) -/
 example :
-    let c : Ctx := ⟨4, none, fun _ => false, fun k => if k = 2 then none else some (1000 + k)⟩
+    let c : Ctx := ⟨4, none, fun _ => false, fun k => if k = 2 then none else some (1000 + k), fun _ => .done, (0, none)⟩
     let r := runFn c Gen.Body.dropIter.body Gen.Body.clone [] (ofIter ⟨[0, 1, 2, 3], 0, 4⟩)
     (drops r.1, takes r.1, r.2.1) = ([1000, 1001], [1000, 1001], R.panicked) := by decide
 
